@@ -1290,6 +1290,18 @@ def c20(tier):
     if p.returncode != 0:
         raise Infra("clientconnect failed: %s" % p.stderr[-1500:])
     account(v, json.loads(p.stdout.strip().splitlines()[-1]), "connect-results")
+    # Connect over histories of one client identifier (refused, dropped by the server, disconnected, connected again)
+    d = 3 if not thorough else 4
+    r = core.cached_tlc("clientconn-%d" % d, "ClientConn", "SPECIFICATION Spec\nCONSTANTS\n MaxSteps = %d\nINVARIANTS NothingLeft ResultByAnswer EmitFull\n" % d, workers=1, timeout=600)
+    v.tlc("ClientConn(paths, %d)" % d, r)
+    hs = core.behaviours(r.lines)
+    if len(hs) < 20:
+        raise Infra("ClientConn: only %d histories" % len(hs))
+    p = core.run_harness(["clientconnhist"], stdin_obj=hs, timeout=900)
+    if p.returncode != 0:
+        raise Infra("clientconnhist failed: %s" % p.stderr[-1500:])
+    account(v, json.loads(p.stdout.strip().splitlines()[-1]), "connect-histories")
+    v.cov["distinct_nontrivial"] += len(hs)
     behs = client_behaviours(v, "DispSpec", 5 if not thorough else 6, 2, "cover")
     client_replay(v, "C20", behs, "dispatch(cover)", {"C20", "C12", "C02"})
     behs = client_behaviours(v, "DispSpec", 3 if not thorough else 4, 2, "paths")
